@@ -135,6 +135,7 @@ pub struct Agg {
     pub env_reads: u64,
     pub env_perturbed: u64,
     pub cpu_reads: u64,
+    pub skipped_incomplete_reference: u64,
     pub large_input_outcomes: u64,
     pub env_keys: Vec<String>,
     pub env_plan_runs: u64,
@@ -210,6 +211,7 @@ impl Agg {
         self.env_reads += r.env_reads;
         self.env_perturbed += r.env_perturbed;
         self.cpu_reads += r.cpu_reads;
+        self.skipped_incomplete_reference += r.skipped_incomplete_reference;
         self.large_input_outcomes += r.large_input_outcomes;
         for k in &r.env_keys {
             if self.env_keys.len() < 16 && !self.env_keys.contains(k) {
@@ -1121,6 +1123,7 @@ pub fn check(tier_name: &str, base_seed: u64) -> Outcome {
                 "F12_cpu_count_queries_by_the_library_inside_calls": a.cpu_reads,
             },
             "harness_probes": {
+                "calls_not_made_because_the_reference_does_not_complete_within_the_step_budget": a.skipped_incomplete_reference,
                 "compared_outcomes_of_calls_with_haystacks_of_4096_bytes_or_more": a.large_input_outcomes,
                 "calls_overlapping_on_same_object": a.same_obj_overlap,
                 "runs_with_same_object_overlap": a.runs_same_obj_overlap,
